@@ -175,6 +175,32 @@ def run(ctx):
         r = ret_expr(f)
         ok = isinstance(r, dict) and r.get("k") == "un" and r["op"] == "!" and dep_call(r["e"], "F1::filter")
         ctx.check(ok, "R05.4", f, "truth-table:not_filter", "not_filter::filter returns %s instead of !F1::filter(r)" % fmt(r), f, why_ok=fmt(r))
+    # partial specialisations of not_filter (the double negation): not(not(F)) decides like F - inherited from F1, or spelled out with
+    # as many negations as the nesting leaves over (an even number of `not_filter<` around F1 means none)
+    nspec = 0
+    for cn in sorted(prog.classes):
+        c0 = prog.classes[cn]
+        if not (cn.startswith("nitro::log::filter::not_filter<") and c0.get("pattern")):
+            continue
+        nspec += 1
+        depth = cn.count("not_filter<")
+        own = [g for g in prog.fns.values() if g.has_cfg and g.is_pattern and g.name == "filter" and (g.cls or "") == cn]
+        if not own:
+            bases = [(b0.get("type") or b0.get("name"), b0.get("access")) for b0 in c0.get("bases", [])]
+            ctx.check(depth % 2 == 0 and bases == [("F1", "public")], "R05.4", cn, "double-negation:" + short(cn), "the specialisation %s has bases %s: not(not(F)) has to decide like F" % (short(cn), bases),
+                      "%s:%d" % (c0["file"], c0["line"]), why_ok="inherits filter() from F1")
+            continue
+        for g in own:
+            r = ret_expr(g)
+            neg = 0
+            x = ir.unwrap(r) if r is not None else None
+            while isinstance(x, dict) and x.get("k") == "un" and x.get("op") == "!":
+                neg += 1
+                x = ir.unwrap(x["e"])
+            ok = x is not None and dep_call(x, "F1::filter") and (neg + depth) % 2 == 0
+            ctx.check(ok, "R05.4", g, "double-negation:" + short(cn), "%s::filter returns %s: with %d negation(s) in the type and %d in the expression the result is the opposite of what not(not(F)) has to decide (F itself)"
+                      % (short(cn), fmt(r) if r is not None else "?", depth, neg), g, why_ok=fmt(r) if r is not None else "")
+    ctx.need("R05.4", "partial specialisations of not_filter", nspec, 1)
     f = filt("severity_filter")
     if ctx.anchor("R05.4", "nitro::log::filter::severity_filter::filter", f is not None):
         r = ret_expr(f)
